@@ -7,10 +7,10 @@ from harness.common import cz, cq, cnat, cbool, clist, ctup, import_aa, frac, ex
 ID = "C17"
 GEN = []
 PROPS = "Props/C17.v"
-COQ_CHECK = ("Model.C17", "check")
+COQ_CHECK = ("Model.C17x", "checkx")
 COQ_FALLBACK = None
-COQ_IMPORTS = "From PAV Require Import Base.NumOps."
-SHARD = 120
+COQ_IMPORTS = "From PAV Require Import Base.NumOps Model.C17.\nNotation case := casex (only parsing)."      # the wrapped cases of Model/C17x.v
+SHARD = 90
 RULE = ("profile objects are generated classes whose methods are decorated with aa.grid_dec.to_array / to_grid / to_vector_yx / "
         "project_grid / relocate_to_radial_minimum / transform (alone and stacked to_X(transform(relocate(f))), also with a nested "
         "second decorated method); the user function is drawn from a family that makes any pairing error visible (affine and quadratic "
@@ -29,6 +29,11 @@ RULE = ("profile objects are generated classes whose methods are decorated with 
         "the same kind and mask on the same profile instance) with the user's in-place edits grid[k] = p / grid[k, c] = v between calls and returned "
         "grids fed back as inputs, each call compared with model and specification on the contents current at that moment plus the array read "
         "back after the call; whole histories scaled to units 2^-40, 2^-27, 2^34 (tolerance 1e-9 * unit). "
+        "Phase 3: every stream also with SUBCLASS instances of the accepted classes (aa.Grid2DIrregularUniform direct / from_grid_sparse_uniform_upscale, "
+        "harness-defined subclasses of Grid2D / Grid2DIrregular / Grid1D / Grid2DIrregularUniform / ndarray and subclasses of those; directed sweep over "
+        "stream x class x flavour), the observed MRO goes into the Coq case; list results as list-subclass instances, values as autoarray structures; "
+        "calls by position / by keyword, with further keyword (and, through project_grid / relocate, positional) arguments that must reach the method "
+        "as the same objects; histories over grids of different kinds on the same profile objects, also the same method + attributes on both in turn. "
         "Non-trivial = at least 2 coordinates reach the function (histories: always); distinct = distinct JSON input.")
 EXHAUSTIVE = {}
 TRUSTED = ["hand-written Gallina model coq/Model/C17.v, tied to /repo by this correspondence run: both the grid the user function "
@@ -250,38 +255,96 @@ def derive(aa, obj, d):
         return big[1::2, 1:3]
     raise ValueError(op)
 
+# ---- subclass instances: a grid that IS a Grid2D / Grid2DIrregular / Grid1D (/ ndarray) without being exactly that class
+# g["sub"]: "pav"        a trivial harness-defined subclass of the accepted class (class PavGrid2D(aa.Grid2D): pass ...)
+#           "pav2"       a subclass of that subclass (the accepted class is two steps up the MRO)
+#           "uniform"    aa.Grid2DIrregularUniform (the library's own subclass of Grid2DIrregular), built directly
+#           "upscale"    aa.Grid2DIrregularUniform.from_grid_sparse_uniform_upscale(g["sparse"], g["f"], g["ups"]); g["cs"] holds
+#                        the exact upscaled coordinates (computed by the generator with `upscaled`), checked by `holds`
+#           "pavuniform" a harness-defined subclass of aa.Grid2DIrregularUniform
+# The decorators must treat all of them as the accepted class: same container type, mask and entries.
+BASE_OF = {"mask": "Grid2D", "2d": "Grid2D", "irr": "Grid2DIrregular", "1d": "Grid1D", "raw": "ndarray"}
+BASE_NAMES = ("Grid2D", "Grid2DIrregular", "Grid1D", "ndarray")
+_SUB = {}
+def sub_class(aa, k, sub):
+    """the class of the input object for kind k and subclass tag sub (None: the accepted class itself)"""
+    base = {"Grid2D": aa.Grid2D, "Grid2DIrregular": aa.Grid2DIrregular, "Grid1D": aa.Grid1D, "ndarray": np.ndarray}[BASE_OF[k]]
+    if sub is None: return base
+    key = (BASE_OF[k], sub)
+    if key not in _SUB:
+        if sub == "pav": c = type("Pav" + base.__name__, (base,), {})
+        elif sub == "pav2": c = type("PavPav" + base.__name__, (sub_class(aa, k, "pav"),), {})
+        elif sub in ("uniform", "upscale"): c = aa.Grid2DIrregularUniform
+        elif sub == "pavuniform": c = type("PavGrid2DIrregularUniform", (aa.Grid2DIrregularUniform,), {})
+        else: raise ValueError(sub)
+        if not issubclass(c, base) or c is base: raise ValueError(sub)
+        _SUB[key] = c
+    return _SUB[key]
+def upscaled(sparse, f, ps):
+    """grid_2d_slim_upscaled_from, exactly: every sparse point becomes the f x f sub-pixel centres of a pixel of size ps around it"""
+    psy, psx = F(ps[0]), F(ps[1])
+    return [[F(y) + psy / 2 - j * (psy / f) - psy / f / 2, F(x) - psx / 2 + i * (psx / f) + psx / f / 2]
+            for y, x in sparse for j in range(f) for i in range(f)]
+def mro_names(obj): return [c.__name__ for c in type(obj).__mro__]
+def c_mro(aa, obj):
+    """the MRO of the object's class as the Coq model sees it: the four classes the decorators test for (by identity), NOther for the rest"""
+    names = {aa.Grid2D: "NGrid2D", aa.Grid2DIrregular: "NGrid2DIrregular", aa.Grid1D: "NGrid1D", np.ndarray: "NNdarray"}
+    return clist([names.get(c, "NOther") for c in type(obj).__mro__])
+def k_obj(mros, term): return f"(KObj {clist(mros)} {term})"
+def is_a(obj, name): return name in mro_names(obj)
+def base_name(obj):
+    """the accepted class the object is an instance of (first hit along its MRO)"""
+    return next((n for n in mro_names(obj) if n in BASE_NAMES), None)
+
 def build_grid(aa, g):
     k = g["k"]
     store = g.get("store", "slim")
+    sub = g.get("sub")
+    G2, GI, G1 = (sub_class(aa, kk, sub if BASE_OF[kk] == BASE_OF[k] else None) for kk in ("2d", "irr", "1d"))
     dt = int if g.get("dtype") == "int" else float      # integer arrays are kept as they are by the structures
     if k in ("mask", "2d"):
         mask = aa.Mask2D(mask=np.array(g["bits"], dtype=bool), pixel_scales=tuple(fl(v) for v in g["ps"]),
                          origin=tuple(fl(v) for v in g["org"]))
-        if k == "mask" and store == "slim": obj = aa.Grid2D.from_mask(mask=mask)
+        if k == "mask" and store == "slim":
+            obj = aa.Grid2D.from_mask(mask=mask)
+            # Grid2D's class methods build `Grid2D(...)` whatever class they are called on: a subclass instance with the very
+            # coordinates from_mask computed comes out of the subclass constructor
+            if sub: obj = G2(values=np.array(obj.array, copy=True), mask=mask)
         else:
             cs = exact_centres(g) if k == "mask" else frps(g["cs"])
             vals = np.array([[float(a), float(b)] for a, b in cs]).reshape(-1, 2)
             if dt is int and store == "slim": vals = vals.astype(int)
-            if store == "slim": obj = aa.Grid2D(values=vals, mask=mask)
-            elif store == "ctor_native": obj = aa.Grid2D(values=vals, mask=mask, store_native=True)
+            if store == "slim": obj = G2(values=vals, mask=mask)
+            elif store == "ctor_native": obj = G2(values=vals, mask=mask, store_native=True)
             else:
                 junk = [[fl(a), fl(b)] for a, b in g["junk"]]
                 full = to_native(flat_bits(g), [list(v) for v in vals], None)
                 it = iter(junk); full = [next(it) if v is None else v for v in full]
                 H, W = len(g["bits"]), len(g["bits"][0])
-                obj = aa.Grid2D(values=np.array(full).reshape(H, W, 2), mask=mask, store_native=True)
+                obj = G2(values=np.array(full).reshape(H, W, 2), mask=mask, store_native=True)
     elif k == "irr":
-        obj = aa.Grid2DIrregular(values=[(dt(F(a)), dt(F(b))) for a, b in g["cs"]])
-    elif k == "raw": obj = np.array([[dt(F(a)), dt(F(b))] for a, b in g["cs"]], dtype=dt).reshape(-1, 2)
+        vals = [(dt(F(a)), dt(F(b))) for a, b in g["cs"]]
+        if sub == "upscale":
+            obj = GI.from_grid_sparse_uniform_upscale(grid_sparse_uniform=np.array([[fl(a), fl(b)] for a, b in g["sparse"]]),
+                                                      upscale_factor=g["f"], pixel_scales=tuple(fl(v) for v in g["ups"]))
+        elif sub in ("uniform", "pavuniform"):
+            u = g.get("uni", {})
+            if u.get("nd"): vals = np.array(vals, dtype=dt).reshape(-1, 2)      # an [n, 2] array instead of a list of tuples
+            obj = GI(values=vals, shape_native=tuple(u["shape"]) if u.get("shape") else None,
+                     pixel_scales=tuple(fl(v) for v in u["ps"]) if u.get("ps") else None)
+        else: obj = GI(values=vals)
+    elif k == "raw":
+        obj = np.array([[dt(F(a)), dt(F(b))] for a, b in g["cs"]], dtype=dt).reshape(-1, 2)
+        if sub: obj = obj.view(sub_class(aa, "raw", sub))
     elif k == "1d":
         mask = aa.Mask1D(mask=np.array(g["bits"], dtype=bool), pixel_scales=fl(g["ps"]), origin=(fl(g["org"]),))
         xs = [fl(v) for v in g["xs"]]
-        if store == "slim": obj = aa.Grid1D(values=np.array(xs, dtype=dt), mask=mask)
-        elif store == "ctor_native": obj = aa.Grid1D(values=np.array(xs), mask=mask, store_native=True)
+        if store == "slim": obj = G1(values=np.array(xs, dtype=dt), mask=mask)
+        elif store == "ctor_native": obj = G1(values=np.array(xs), mask=mask, store_native=True)
         else:
             it = iter([fl(v) for v in g["junk"]])
             full = [next(it) if v is None else v for v in to_native(g["bits"], xs, None)]
-            obj = aa.Grid1D(values=np.array(full), mask=mask, store_native=True)
+            obj = G1(values=np.array(full), mask=mask, store_native=True)
     else: raise ValueError(k)
     for d in g.get("derive", []): obj = derive(aa, obj, d)
     return obj
@@ -289,7 +352,7 @@ def build_grid(aa, g):
 def stored_of(obj):
     """the entries of the object's array, as exact pairs (1-D: (0, x))"""
     a = np.array(obj.array if hasattr(obj, "array") else obj, dtype=float)
-    if type(obj).__name__ == "Grid1D": return [[F(0), frac(v)] for v in a.ravel()]
+    if is_a(obj, "Grid1D"): return [[F(0), frac(v)] for v in a.ravel()]
     return [[frac(r[0]), frac(r[1])] for r in a.reshape(-1, 2)]
 def fingerprint(obj):
     """everything a decorated call must leave as it was"""
@@ -355,18 +418,29 @@ def profile_class(aa, rmin):
     dec = aa.grid_dec
     from autoarray.geometry import geometry_util
 
+    class PavList(list): pass
+
     class Base:
         def __init__(self, u, rad=("euclid",)):
             self.u = u; self.rad = rad
             self.seen = None; self.seen_obj = None; self.calls = 0; self.tf_calls = 0
-        def _f(self, grid):
+        def _f(self, grid, args=(), kwargs=None):
             self.calls += 1
+            self.got = (args, dict(kwargs or {}))
             self.seen_obj = grid
             a = to_nd(grid)
             self.seen = a.reshape(-1, 2)
             r = uapply(self.u, self.seen)
             if a.ndim == 3:          # a natively stored Grid2D: a function written for it returns results of native shape
                 r = [renative(x, a.shape[:2]) for x in r] if isinstance(r, list) else renative(r, a.shape[:2])
+            elif self.u.get("wrap") and getattr(self, "wrap_ok", False) and not isinstance(grid, np.ndarray):
+                # the function hands back autoarray structures (what a body that calls another decorated method returns)
+                # instead of bare ndarrays: the decorator must take their values all the same
+                def w(x):
+                    if x.shape[0] == 0: return x
+                    return aa.ArrayIrregular(values=x) if x.ndim == 1 else aa.Grid2DIrregular(values=x)
+                r = [w(x) for x in r] if isinstance(r, list) else w(r)
+            if self.u.get("lsub") and isinstance(r, list): r = PavList(r)      # a list subclass is a list: wrapped element by element
             return r
         # the profile's own geometry methods (what PyAutoGalaxy's profiles supply)
         def radial_grid_from(self, grid):
@@ -382,44 +456,44 @@ def profile_class(aa, rmin):
             return grid.with_new_array(arr) if hasattr(grid, "with_new_array") else arr
         # single decorators
         @dec.to_array
-        def m_array(self, grid, *args, **kwargs): return self._f(grid)
+        def m_array(self, grid, *args, **kwargs): return self._f(grid, args, kwargs)
         @dec.to_grid
-        def m_grid(self, grid, *args, **kwargs): return self._f(grid)
+        def m_grid(self, grid, *args, **kwargs): return self._f(grid, args, kwargs)
         @dec.to_vector_yx
-        def m_vector(self, grid, *args, **kwargs): return self._f(grid)
+        def m_vector(self, grid, *args, **kwargs): return self._f(grid, args, kwargs)
         @dec.project_grid
-        def m_project(self, grid, *args, **kwargs): return self._f(grid)
+        def m_project(self, grid, *args, **kwargs): return self._f(grid, args, kwargs)
         @dec.relocate_to_radial_minimum
-        def m_relocate(self, grid, *args, **kwargs): return self._f(grid)
+        def m_relocate(self, grid, *args, **kwargs): return self._f(grid, args, kwargs)
         # the usual stack
         @dec.transform
         @dec.relocate_to_radial_minimum
-        def inner(self, grid, *args, **kwargs): return self._f(grid)
+        def inner(self, grid, *args, **kwargs): return self._f(grid, args, kwargs)
         @dec.to_array
         @dec.transform
         @dec.relocate_to_radial_minimum
-        def s_array(self, grid, *args, **kwargs): return self._f(grid)
+        def s_array(self, grid, *args, **kwargs): return self._f(grid, args, kwargs)
         @dec.to_grid
         @dec.transform
         @dec.relocate_to_radial_minimum
-        def s_grid(self, grid, *args, **kwargs): return self._f(grid)
+        def s_grid(self, grid, *args, **kwargs): return self._f(grid, args, kwargs)
         @dec.to_vector_yx
         @dec.transform
         @dec.relocate_to_radial_minimum
-        def s_vector(self, grid, *args, **kwargs): return self._f(grid)
+        def s_vector(self, grid, *args, **kwargs): return self._f(grid, args, kwargs)
         # ... whose body calls a second decorated method, handing its kwargs on (is_transformed travels with them)
         @dec.to_array
         @dec.transform
         @dec.relocate_to_radial_minimum
-        def n_array(self, grid, *args, **kwargs): return self.inner(grid, **kwargs)
+        def n_array(self, grid, *args, **kwargs): return self.inner(grid, *args, **kwargs)
         @dec.to_grid
         @dec.transform
         @dec.relocate_to_radial_minimum
-        def n_grid(self, grid, *args, **kwargs): return self.inner(grid, **kwargs)
+        def n_grid(self, grid, *args, **kwargs): return self.inner(grid, *args, **kwargs)
         @dec.to_vector_yx
         @dec.transform
         @dec.relocate_to_radial_minimum
-        def n_vector(self, grid, *args, **kwargs): return self.inner(grid, **kwargs)
+        def n_vector(self, grid, *args, **kwargs): return self.inner(grid, *args, **kwargs)
 
     cls = type(name, (Base,), {})
     _CLS[name] = cls
@@ -433,9 +507,13 @@ def angle_deg(a):
     return q.get((c, s), math.degrees(math.atan2(s, c)))
 
 # --------------------------------------------------------------------------------------------- running one call
-def call(fn, grid):
+class Sentinel:
+    """an opaque extra argument of the user's method"""
+    def __init__(self, tag): self.tag = tag
+def call(fn, grid, args=(), kwargs=None, by_keyword=False):
     try:
-        return ("ok", fn(grid))
+        if by_keyword: return ("ok", fn(grid=grid, **(kwargs or {})))        # how PyAutoGalaxy calls its profiles' methods
+        return ("ok", fn(grid, *args, **(kwargs or {})))
     except Exception as e:   # noqa
         return ("raise", exn_name(e), type(e).__name__)
 
@@ -483,7 +561,8 @@ def profile_obj(aa, ci, pool):
         obj = cls(None)
         if pool is not None and ci.get("o") is not None: pool[key] = obj
     obj.u = ci["u"]; obj.rad = tuple(ci["rad"]) if op == "relocate" else ("euclid",)
-    obj.seen = None; obj.seen_obj = None; obj.calls = 0; obj.tf_calls = 0
+    obj.wrap_ok = op != "relocate"        # relocate alone hands the function's own result back: nothing to unwrap
+    obj.seen = None; obj.seen_obj = None; obj.calls = 0; obj.tf_calls = 0; obj.got = None
     for a in ("centre", "angle"):
         if a in obj.__dict__: del obj.__dict__[a]
     return obj
@@ -513,9 +592,27 @@ def do_call(aa, ci, grid, sh, pool=None):
     else:
         raise ValueError(op)
     attrs = (getattr(obj, "centre", "absent"), getattr(obj, "angle", "absent"))
+    # the user's method may take further arguments: the decorators hand them on untouched.  Two things the code does that are not
+    # C17 clauses (the property quantifies over functions of a grid) and are therefore kept out of the inputs: transform replaces
+    # the caller's keyword arguments by its own is_transformed flag (no keywords go into a stack), and the three makers are built
+    # with `Maker(func=func, obj=obj, grid=grid, *args, **kwargs)`, so that ANY further positional argument raises "TypeError:
+    # got multiple values for argument 'func'" (positional extras only through project_grid / relocate_to_radial_minimum)
+    by_kw = bool(ci.get("kw"))
+    xargs, xkw, xlist = (), {}, [1, 2]
+    if ci.get("xargs"):
+        if not by_kw and op in ("project", "relocate"): xargs = (Sentinel("a"), xlist)
+        if op != "stack": xkw = {"pav_extra": Sentinel("k"), "pav_list": xlist}
     before = fingerprint(grid)
-    r = call(fn, grid)
+    r = call(fn, grid, xargs, xkw, by_kw)
     after = fingerprint(grid)
+    if obj.calls == 1 and obj.got is not None:
+        ga, gk = obj.got
+        if op == "stack": gk = {k: v for k, v in gk.items() if k != "is_transformed"}
+        if len(ga) != len(xargs) or any(a is not b for a, b in zip(ga, xargs)):
+            py_ok = False; notes.append("the user's method did not receive the caller's extra positional arguments")
+        if set(gk) != set(xkw) or any(gk[k] is not xkw[k] for k in xkw):
+            py_ok = False; notes.append(f"the user's method did not receive the caller's keyword arguments (got {sorted(gk)})")
+        if xlist != [1, 2]: py_ok = False; notes.append("the caller's list argument was modified")
     if before != after:
         py_ok = False
         what = [n for n, a, b in zip(("type", "array type", "dtype", "shape", "array content", "_is_transformed", "mask object", "mask content", "mask shape",
@@ -581,14 +678,14 @@ def shape_case(aa, ci, grid, sh):
     if ci["op"] == "project" and sh["k"] in ("mask", "2d", "2dnat"):
         c0 = [F(0), F(0)] if ci["centre"] in (None, "absent") else fr2(ci["centre"])
         n = grid.grid_2d_radial_projected_shape_slim_from(centre=(float(c0[0]), float(c0[1])))
-        return [f"(KShape {c_mask2(pm2(sh))} {c_pt(c0)} {cz(int(n))})"]
+        return [k_obj([], f"(KShape {c_mask2(pm2(sh))} {c_pt(c0)} {cz(int(n))})")]
     return []
 
 def kind_of(ci, sh): return ci["op"] + ":" + sh["k"] + (":" + ci["dec"] if "dec" in ci else "")
 def variant_full(g):
     v = ([g["store"]] if g.get("store", "slim") != "slim" else []) + [d if isinstance(d, str) else d[0] for d in g.get("derive", [])]
     return ("+" + "+".join(v)) if v else ""
-def variant(g): return "+derived" if g.get("derive") else ""
+def variant(g): return ("+derived" if g.get("derive") else "") + ("+sub" if g.get("sub") else "")
 
 def run_case(inp):
     aa = import_aa()
@@ -604,7 +701,7 @@ def run_case(inp):
         return {"coq": None, "out": {"stored": [[str(a), str(b)] for a, b in stored_of(grid)][:12]}, "py_ok": False, "kind": "construct:" + g["k"],
                 "nontrivial": True, "detail": "the constructed / derived grid does not store the requested contents (" + variant_full(g) + ")"}
     d = do_call(aa, inp, grid, sh)
-    res = {"coq": k_term(d["parts"], sh), "extra_coq": shape_case(aa, inp, grid, sh),
+    res = {"coq": k_obj([c_mro(aa, grid)], k_term(d["parts"], sh)), "extra_coq": shape_case(aa, inp, grid, sh),
            "out": {"seen": [[str(a), str(b)] for a, b in d["seen"]][:12], "result": summarize(d["out"]), "notes": d["notes"]},
            "py_ok": d["py_ok"] if not (d["raised"] and d["py_ok"]) else None, "kind": kind_of(inp, sh) + variant(g),
            "nontrivial": len(d["seen"]) >= 2}
@@ -618,7 +715,7 @@ def run_case(inp):
 #        | {"t": "edit", "gi": i, "k": stored index, "v": [y, x] | x, "comp": None | 0 | 1}      grid[k] = v  /  grid[k, comp] = v
 # The grid objects are built once and live through the history; nothing but the edits may change what they hold.
 def py_edit(obj, k, v, comp):
-    one_d = type(obj).__name__ == "Grid1D"
+    one_d = is_a(obj, "Grid1D")
     a = obj.array if hasattr(obj, "array") else obj
     if one_d: obj[k] = fl(v); return
     if a.ndim == 3:
@@ -674,7 +771,7 @@ def run_hist(aa, inp):
         outs.append({"seen": [[str(a), str(b)] for a, b in d["seen"]][:8], "result": summarize(d["out"]), "notes": d["notes"]})
     if not ncalls:
         return {"coq": None, "out": "skipped: every call within 1e-3 of the radial minimum", "py_ok": None, "kind": "hist:skipped", "nontrivial": False}
-    coq = f"(KHist {cz(e)} {clist([c_gspec(s) for s in shs0])} {clist(steps)})"
+    coq = k_obj([c_mro(aa, o) for o in objs], f"(KHist {cz(e)} {clist([c_gspec(s) for s in shs0])} {clist(steps)})")
     res = {"coq": coq, "out": outs[:4], "py_ok": py_ok, "nontrivial": True,
            "kind": "hist:" + "/".join(s["k"] + variant(g) for s, g in zip(shs0, inp["grids"])) + ("/fed" * (len(shs0) - len(inp["grids"])))
                    + ("@2^%d" % e if e else "")}
@@ -819,6 +916,41 @@ def native_1d(rng, g):
     if rng.random() < 0.3: g["derive"] = g.get("derive", []) + [rng.choice(["copy", "add0", "slice", "wna"])]
     return g
 
+# ---- subclass instances of the accepted classes
+def add_sub(rng, g, p=0.35):
+    """make the grid an instance of a SUBCLASS of its accepted class (see build_grid); contents and storage stay as they are"""
+    if rng.random() >= p: return g
+    g = dict(g)
+    if g["k"] != "irr":
+        g["sub"] = rng.choice(["pav", "pav", "pav2"])
+        return g
+    sub = rng.choice(["pav", "pav2", "uniform", "uniform", "upscale", "upscale", "pavuniform"])
+    # upscale: factor 1 / 2 / 4, dyadic pixel scales and sparse points on the 1/16 lattice, so that the library's double arithmetic
+    # is exact and the object holds exactly `upscaled(...)` (histories compare the array read back after a call exactly)
+    if sub == "upscale" and (g.get("dtype") == "int" or any(F(v).denominator > 16 for q in g["cs"][:3] for v in q)): sub = "uniform"
+    g["sub"] = sub
+    if sub == "upscale":
+        f = rng.choice([1, 2, 2, 4])
+        ns = max(1, min(3 if f < 4 else 1, len(g["cs"]) // (f * f)))
+        g["sparse"] = g["cs"][:ns]; g["f"] = f; g["ups"] = [rng.choice(PS), rng.choice(PS)]
+        g["cs"] = [[S(a), S(b)] for a, b in upscaled(g["sparse"], f, g["ups"])]
+    elif sub in ("uniform", "pavuniform"):
+        g["uni"] = {"nd": rng.random() < 0.5}
+        if rng.random() < 0.7: g["uni"]["ps"] = [rng.choice(PS), rng.choice(PS)]
+        if rng.random() < 0.5: g["uni"]["shape"] = [rng.randint(1, 6), rng.randint(1, 6)]
+    return g
+def flag_call(rng, ci):
+    """how the method is called: positionally / by keyword (grid=...), with further arguments of the user's method"""
+    if rng.random() < 0.3: ci["kw"] = True
+    if rng.random() < 0.3: ci["xargs"] = True
+    return ci
+def flag_u(rng, u, g, op):
+    """result KINDS the decorators must take like plain ndarrays / lists: a list SUBCLASS, autoarray structures as values"""
+    u = dict(u)
+    if u["list"] and rng.random() < 0.4: u["lsub"] = True
+    if op != "relocate" and g["k"] != "raw" and rng.random() < 0.12: u["wrap"] = True
+    return u
+
 # ---- scaled copies
 def scale_grid(g, un):
     g = dict(g); g.pop("dtype", None)
@@ -826,6 +958,8 @@ def scale_grid(g, un):
     if "ps" in g: g["ps"] = sv(g["ps"]) if g["k"] == "1d" else [sv(v) for v in g["ps"]]
     if "org" in g: g["org"] = sv(g["org"]) if g["k"] == "1d" else [sv(v) for v in g["org"]]
     if "cs" in g: g["cs"] = [[sv(a), sv(b)] for a, b in g["cs"]]
+    if "sparse" in g: g["sparse"] = [[sv(a), sv(b)] for a, b in g["sparse"]]; g["ups"] = [sv(v) for v in g["ups"]]
+    if "uni" in g and g["uni"].get("ps"): g["uni"] = dict(g["uni"], ps=[sv(v) for v in g["uni"]["ps"]])
     if "xs" in g: g["xs"] = [sv(v) for v in g["xs"]]
     if "junk" in g: g["junk"] = [sv(v) for v in g["junk"]] if g["k"] == "1d" else [[sv(a), sv(b)] for a, b in g["junk"]]
     if "derive" in g: g["derive"] = [d if isinstance(d, str) else [d[0], sv(d[1])] for d in g["derive"]]
@@ -841,15 +975,18 @@ def scale_step(st, un):
     return st
 
 # ---- histories
-def rand_call(rng, g, centre0, homogeneous=False):
-    """one decorated call that the grid kind admits"""
+def rand_call(rng, g, centre0, homogeneous=False, like=None):
+    """one decorated call that the grid kind admits; like = an earlier call step: the same method of the same profile object with
+    the same profile attributes again (the user function is drawn anew), if this grid kind admits it"""
     k = g["k"]
     native2d = k in ("mask", "2d") and (g.get("store", "slim") != "slim" or "native" in g.get("derive", []))
     if native2d: ops = ["make", "make", "project"]
     elif k == "1d": ops = ["make", "make", "project", "project", "stack", "stack"]
     elif k == "raw": ops = ["make", "relocate", "relocate", "stack", "stack", "project"]
     else: ops = ["make", "project", "relocate", "relocate", "stack", "stack"]
-    op = rng.choice(ops)
+    if like is not None and (like["op"] not in ops or (k == "1d" and like["op"] == "stack" and like.get("dec") == "vector")): like = None
+    op = like["op"] if like else rng.choice(ops)
+    L = like or {}
     def ufun(want, **kw):
         u = rand_ufun(rng, want, **kw)
         if homogeneous:
@@ -858,23 +995,28 @@ def rand_call(rng, g, centre0, homogeneous=False):
                     if f[j][0] == "quad": f[j] = ["cum", f[j][1], f[j][2]]
                     elif f[j][0] == "aff": f[j] = ["aff", f[j][1], f[j][2], "0"]
         return u
-    st = {"t": "call", "op": op, "o": rng.choice([0, 0, 1, None])}
+    st = {"t": "call", "op": op, "o": L["o"] if like else rng.choice([0, 0, 1, None])}
     near = [S(centre0[0] + F(rng.randint(-6, 6), 4)), S(centre0[1] + F(rng.randint(-6, 6), 4))]
     if op == "make":
-        st["dec"] = rng.choice(["array", "grid", "vector"])
+        st["dec"] = L.get("dec") or rng.choice(["array", "grid", "vector"])
         st["u"] = ufun("V" if st["dec"] == "array" else "P", allow_drop=rng.random() < 0.1)
     elif op == "project":
         st["centre"] = rng.choice(["absent", None, near, near]); st["angle"] = rng.choice(["absent", None] + [list(a) for a in ANGLES])
+        if like: st["centre"] = L["centre"]; st["angle"] = L["angle"]
         st["u"] = ufun(rng.choice("VP") if k == "irr" else "V", allow_list=False)
     elif op == "relocate":
         st["rmin"] = rng.choice(RMINS + RMINS + [None]); st["rad"] = ["euclid"] if rng.random() < 0.75 else ["ellip", rng.choice(["2", "1/2"])]
+        if like: st["rmin"] = L["rmin"]; st["rad"] = L["rad"]
         st["u"] = ufun(rng.choice("VP")) if rng.random() < 0.7 else IDENT
     else:
         st["dec"] = rng.choice(["array", "grid"] if k == "1d" else ["array", "grid", "vector"])
         st["rmin"] = rng.choice(RMINS + RMINS + [None]); st["centre"] = near; st["angle"] = list(rng.choice(ANGLES))
         st["nested"] = rng.random() < 0.5
+        if like:
+            for f in ("dec", "rmin", "centre", "angle", "nested"): st[f] = L[f]
         st["u"] = ufun("V" if st["dec"] == "array" else "P")
-    return st
+    st["u"] = flag_u(rng, st["u"], g, op)
+    return flag_call(rng, st)
 
 def n_stored(g):
     if "n" in g: return g["n"]
@@ -888,21 +1030,38 @@ def rand_hist(rng, e=0, kinds=("mask", "2d", "irr", "1d", "raw"), force_native1d
     if rng.random() < 0.08: g0 = as_int(rng, g0)
     if g0["k"] == "1d" and (force_native1d or rng.random() < 0.5): g0 = native_1d(rng, g0)
     else: g0 = add_variant(rng, g0, native2d=rng.random() < 0.3, p_plain=0.4)
+    g0 = add_sub(rng, g0)
     grids = [g0]
+    locked = False
     if rng.random() < 0.35:
         # a second grid of the same kind on an equal mask with other contents, served by the same profile objects
         g1 = dict(g0)
+        if g1.get("sub") == "upscale":                     # other contents: no longer the upscaled lattice
+            g1["sub"] = "uniform"; g1.pop("sparse"); g1["uni"] = {"ps": g1.pop("ups"), "nd": True}; g1.pop("f")
         if g1["k"] == "mask": g1["k"] = "2d"
         if g1["k"] == "1d": g1["xs"] = [S(F(rng.randint(-64, 64), 8)) for _ in g0["xs"]]
         else: g1["cs"] = pts(rng, len(g0["cs"]) if "cs" in g0 else n_coords(g0))
         if g0.get("dtype") == "int": g1 = as_int(rng, g1)
         grids.append(g1)
+    elif rng.random() < 0.4:
+        # a grid of ANOTHER kind / class / storage served by the same profile objects and methods (whatever a profile object or a
+        # decorated method remembers from the previous call must not leak into the next one)
+        g1 = rand_grid(rng, kinds=tuple(k for k in kinds if k != g0["k"]) or kinds, pts=pts)
+        if g1["k"] == "1d" and rng.random() < 0.5: g1 = native_1d(rng, g1)
+        else: g1 = add_variant(rng, g1, native2d=rng.random() < 0.3, p_plain=0.5)
+        grids.append(add_sub(rng, g1))
+        # ... deliberately: the SAME method of the SAME profile object, with the same profile attributes, on the two grids in turn
+        locked = rng.random() < 0.6
     steps = []
-    ncall = rng.randint(min_calls, 4)
+    ncall = rng.randint(max(min_calls, 2) if locked else min_calls, 4)
+    first = None
     for c in range(ncall):
-        gi = rng.randrange(len(grids))
-        st = rand_call(rng, grids[gi], c0, homogeneous=e != 0); st["gi"] = gi
-        if c and rng.random() < 0.4:     # the same call again (perhaps through another profile object)
+        gi = (c + ncall) % 2 if locked else rng.randrange(len(grids))
+        st = rand_call(rng, grids[gi], c0, homogeneous=e != 0, like=first if locked else None); st["gi"] = gi
+        if locked and first is None:
+            if st["o"] is None: st["o"] = 0
+            first = st
+        if c and not locked and rng.random() < 0.4:     # the same call again (perhaps through another profile object)
             st = dict(steps[[j for j, x in enumerate(steps) if x["t"] == "call"][-1]], o=st["o"]); st.pop("feed", None); gi = st["gi"]
         steps.append(st)
         gk = grids[gi]
@@ -943,8 +1102,46 @@ def full_pts(rng, n):
     def one():
         t = rng.random()
         if t < 0.08: return 0.0
-        return rng.uniform(-8, 8) if t < 0.8 else rng.uniform(-1, 1) * 10 ** rng.randint(-6, 3)
+        # |coordinate| <= 100: a quadratic user function with coefficient 16 stays below 2e5, where a double's rounding error is
+        # far inside the absolute tolerance 1e-9 (huge magnitudes: the scaled histories, with homogeneous functions)
+        return rng.uniform(-8, 8) if t < 0.8 else rng.uniform(-1, 1) * 10 ** rng.randint(-6, 2)
     return [[S(Fraction(one())), S(Fraction(one()))] for _ in range(n)]
+
+def force_sub(rng, g, sub):
+    for _ in range(50):
+        h = add_sub(rng, g, p=1.1)
+        if h["sub"] == sub: return h
+    raise ValueError(sub)
+def sweep_case(rng, npf, k, sub, j, rep, op, dec):
+    centre = (F(rng.randint(-8, 8), 4), F(rng.randint(-8, 8), 4))
+    rmin = rng.choice(RMINS[2:])
+    g = rand_grid(rng, kinds=(k,), pts=lambda r, n: npf(r, n, c=centre if op == "stack" else (F(0), F(0)), rm=None if op == "stack" else rmin))
+    if k in ("mask", "2d", "1d") and op in ("make", "project") and rng.random() < 0.3:
+        g = native_1d(rng, g) if k == "1d" else add_variant(rng, g, native2d=True, p_plain=0.0)
+    g = force_sub(rng, g, ["pav", "pav2"][(j + rep) % 2] if sub == "alt" else sub)
+    want = "V" if dec == "array" or op == "project" else ("P" if dec else rng.choice("VP"))
+    u = flag_u(rng, rand_ufun(rng, want, allow_list=op != "project"), g, op)
+    inp = {"op": op, "grid": g, "u": u}
+    if dec: inp["dec"] = dec
+    if op == "project":
+        inp.update(centre=rng.choice(["absent", [S(centre[0]), S(centre[1])]]), angle=rng.choice(["absent"] + [list(a) for a in ANGLES]), rpc=bool(j % 2))
+    elif op == "relocate": inp.update(rmin=rmin, rad=["euclid"])
+    elif op == "stack":
+        inp.update(rmin=rmin, centre=[S(centre[0]), S(centre[1])], angle=list(rng.choice(ANGLES)), nested=bool((j + rep) % 2))
+    return flag_call(rng, inp)
+def sub_sweep(rng, N):
+    npf = near_pts(RMINS, p0=0.0)
+    calls = [("make", "array"), ("make", "grid"), ("make", "vector"), ("project", None), ("relocate", None),
+             ("stack", "array"), ("stack", "grid"), ("stack", "vector")]
+    for rep in range(N):
+        for k, subs in (("mask", None), ("2d", None), ("1d", None), ("raw", None), ("irr", ["pav", "pav2", "uniform", "upscale", "pavuniform"])):
+            for sub in (subs or ["alt"]):
+                for j, (op, dec) in enumerate(calls):
+                    if k == "1d" and (op == "relocate" or (op == "stack" and dec == "vector")): continue
+                    for attempt in range(30):
+                        inp = sweep_case(rng, npf, k, sub, j, rep, op, dec)
+                        if not classify(inp, shadow_of(inp["grid"]))[1]: break          # not within the skipped band
+                    yield inp
 
 def gen_inputs(tier, rng):
     big = tier == "thorough"
@@ -958,8 +1155,9 @@ def gen_inputs(tier, rng):
         if g["k"] == "1d" and i % 2:
             g = native_1d(rng, g)
         else: g = add_variant(rng, g, native2d=True)
-        u = rand_ufun(rng, "V" if dec == "array" else "P", allow_drop=(i % 7 == 0))
-        yield {"op": "make", "dec": dec, "grid": g, "u": u}
+        g = add_sub(rng, g, p=0.4)
+        u = flag_u(rng, rand_ufun(rng, "V" if dec == "array" else "P", allow_drop=(i % 7 == 0)), g, "make")
+        yield flag_call(rng, {"op": "make", "dec": dec, "grid": g, "u": u})
     # ---- project_grid
     for i in range(100 * N):
         g = rand_grid(rng, kinds=("mask", "mask", "2d", "irr", "1d", "1d", "raw"), iso=0.3)
@@ -974,8 +1172,9 @@ def gen_inputs(tier, rng):
         else: u = rand_ufun(rng, "V", allow_list=False)
         if g["k"] == "1d" and i % 2: g = native_1d(rng, g)
         else: g = add_variant(rng, g, native2d=True, p_plain=0.6)
-        yield {"op": "project", "grid": g, "u": u, "centre": centre, "angle": angle,
-               "rpc": "default" if (i % 5 == 0 and g["k"] in ("mask", "2d")) else bool(i % 2)}
+        g = add_sub(rng, g); u = flag_u(rng, u, g, "project")
+        yield flag_call(rng, {"op": "project", "grid": g, "u": u, "centre": centre, "angle": angle,
+                              "rpc": "default" if (i % 5 == 0 and g["k"] in ("mask", "2d")) else bool(i % 2)})
     # ---- relocate_to_radial_minimum alone
     npf = near_pts(RMINS)
     for i in range(100 * N):
@@ -987,7 +1186,8 @@ def gen_inputs(tier, rng):
         g = add_variant(rng, g, p_plain=0.6)
         rad = ["euclid"] if i % 4 else ["ellip", rng.choice(["2", "1/2"])]
         u = rand_ufun(rng, rng.choice("VP")) if i % 3 else IDENT
-        yield {"op": "relocate", "grid": g, "u": u, "rmin": rmin, "rad": rad}
+        g = add_sub(rng, g); u = flag_u(rng, u, g, "relocate")
+        yield flag_call(rng, {"op": "relocate", "grid": g, "u": u, "rmin": rmin, "rad": rad})
     # ---- the stack to_X(transform(relocate(f))), plain and nested
     for i in range(120 * N):
         dec = decs[i % 3]
@@ -1003,12 +1203,17 @@ def gen_inputs(tier, rng):
         if g["k"] == "1d" and i % 2: g = native_1d(rng, g)
         else: g = add_variant(rng, g, p_plain=0.6)
         if g["k"] == "1d" and dec == "vector": dec = "array"
-        u = rand_ufun(rng, "V" if dec == "array" else "P")
-        yield {"op": "stack", "dec": dec, "grid": g, "u": u, "rmin": rmin, "centre": [S(centre[0]), S(centre[1])],
-               "angle": list(rng.choice(ANGLES)), "nested": bool(i % 2)}
-    # ---- histories: grid and profile OBJECTS that live through several calls and in-place edits
+        g = add_sub(rng, g)
+        u = flag_u(rng, rand_ufun(rng, "V" if dec == "array" else "P"), g, "stack")
+        yield flag_call(rng, {"op": "stack", "dec": dec, "grid": g, "u": u, "rmin": rmin, "centre": [S(centre[0]), S(centre[1])],
+                              "angle": list(rng.choice(ANGLES)), "nested": bool(i % 2)})
+    # ---- directed sweep: every decorator stream x every accepted class x every way of being a SUBCLASS instance of it
+    yield from sub_sweep(rng, N)
+    # ---- histories: grid and profile OBJECTS that live through several calls and in-place edits; interleaved (the scaled ones
+    #      are the most expensive cases to evaluate: spread over the shards) with the same at other orders of magnitude
+    #      (tiny: the shipped radial minima are 1e-8; huge)
+    j = 0
     for i in range(110 * N):
         yield rand_hist(rng, force_native1d=(i % 5 == 0), kinds=("1d",) if i % 5 == 0 else ("mask", "2d", "irr", "1d", "raw"))
-    # ---- the same at other orders of magnitude (tiny: the shipped radial minima are 1e-8; huge)
-    for i in range(45 * N):
-        yield rand_hist(rng, e=UNITS[i % len(UNITS)], min_calls=1)
+        if i % 5 in (1, 3) and j < 44 * N:
+            yield rand_hist(rng, e=UNITS[j % len(UNITS)], min_calls=1); j += 1
